@@ -129,3 +129,54 @@ Section Stream.
 
   Definition cbk_dec (w : list Z) : res (list Z) := cbk_dec_blocks 0 (chunks (S sz) w).
 End Stream.
+
+(* ---- the writer with its buffer: CBK.Write and Flush as crypto.writer drives them (Write per
+        caller chunk, Close -> Flush -> flushOutput).  State: block counter, buffer (size+1 bytes,
+        holding the previous cipher text block), fill position. ---------------------------------- *)
+Record wst : Type := { w_k : nat; w_buf : list Z; w_pos : nat }.
+
+(* copy(e.buf[pos:total], c) *)
+Definition splice (buf : list Z) (pos : nat) (c : list Z) : list Z :=
+  firstn pos buf ++ c ++ skipn (pos + length c) buf.
+
+Section Writer.
+  Variable sz : nat.
+  Variable offs : list Z.
+  Variable consts : nat -> kconst.
+
+  (* flushOutput with pos > 0: buf[total] = byte(pos); transform in place; write; pos = 0 *)
+  Definition cbk_flush (st : wst) : wst * list Z :=
+    let o := enc_buf offs (consts (w_k st)) (upd sz (Z.of_nat (w_pos st)) (w_buf st)) in
+    ({| w_k := S (w_k st); w_buf := o; w_pos := 0 |}, o).
+
+  (* for n < len(b) { if pos >= total { flush }; i = copy(buf[pos:total], b[n:]); pos += i; n += i }
+     if pos < total { return }; flush *)
+  Fixpoint cbk_write_f (fuel : nat) (st : wst) (b : list Z) : wst * list Z :=
+    match fuel with
+    | O => (st, [])
+    | S f =>
+      match b with
+      | [] => if Nat.ltb (w_pos st) sz then (st, []) else cbk_flush st
+      | _ =>
+        let '(st1, o1) := if Nat.leb sz (w_pos st) then cbk_flush st else (st, []) in
+        let c := firstn (sz - w_pos st1) b in
+        let st2 := {| w_k := w_k st1; w_buf := splice (w_buf st1) (w_pos st1) c; w_pos := w_pos st1 + length c |} in
+        let '(st3, o3) := cbk_write_f f st2 (skipn (length c) b) in
+        (st3, o1 ++ o3)
+      end
+    end.
+  Definition cbk_write (st : wst) (b : list Z) : wst * list Z := cbk_write_f (S (length b)) st b.
+
+  (* Close: flushOutput returns at once when pos = 0 *)
+  Definition cbk_close (st : wst) : list Z := if Nat.eqb (w_pos st) 0 then [] else snd (cbk_flush st).
+
+  Fixpoint cbk_writes (st : wst) (ws : list (list Z)) : list Z :=
+    match ws with
+    | [] => cbk_close st
+    | b :: r => let '(st', o) := cbk_write st b in o ++ cbk_writes st' r
+    end.
+
+  (* everything that reaches the sink for the sequence of Write calls ws followed by Close *)
+  Definition cbk_run (ws : list (list Z)) : list Z :=
+    cbk_writes {| w_k := 0; w_buf := repeat 0 (S sz); w_pos := 0 |} ws.
+End Writer.
